@@ -12,7 +12,6 @@ import (
 	"github.com/verily-src/fhirpath-go/internal/verifrt"
 )
 
-var verifArithOps = []func(system.Any, system.Any) (system.Any, error){EvaluateAdd, EvaluateSub, EvaluateMul, EvaluateDiv, EvaluateFloorDiv, EvaluateMod}
 
 func verifPow10(k int) *big.Int {
 	return new(big.Int).Exp(big.NewInt(10), big.NewInt(int64(k)), nil)
